@@ -476,3 +476,139 @@ type writerFunc func(p []byte) (int, error)
 func (f writerFunc) Write(p []byte) (int, error) { return f(p) }
 
 var _ = io.EOF
+
+// twReconnect: two camera connections served one after the other, as main()'s accept loop does, while the writer of
+// the first is still draining its backlog when the second connection starts (the writer stalls stall_ms per frame).
+// Frame ids continue across the connections, so the files in name order must hold 1..n1+n2.
+type twReconn struct {
+	FrameSize int `json:"framesize"`
+	N1        int `json:"n1"`
+	N2        int `json:"n2"`
+	StallMs   int `json:"stall_ms"`
+	GapMs     int `json:"gap_ms"` // second connection starts this long after the first (file names have 1 s resolution)
+}
+
+func TestVerifTWReconnect(t *testing.T) {
+	in, outp := os.Getenv("VERIF_SCRIPT"), os.Getenv("VERIF_OUT")
+	if in == "" || outp == "" {
+		t.Skip("driver only")
+	}
+	log.SetOutput(io.Discard)
+	b, _ := os.ReadFile(in)
+	var all struct {
+		Scripts []twReconn `json:"scripts"`
+	}
+	if err := json.Unmarshal(b, &all); err != nil {
+		t.Fatal(err)
+	}
+	fo, _ := os.Create(outp)
+	defer fo.Close()
+	enc := json.NewEncoder(fo)
+	for si, sc := range all.Scripts {
+		frameLogIntervalFirstMin, frameLogInterval = 15, 60*5
+		dir := t.TempDir()
+		conf := &Config{DeviceID: 5, DeviceName: "verif-dev", OutputDir: dir}
+		sock := filepath.Join(dir, "s.sock")
+		l, err := net.Listen("unix", sock)
+		if err != nil {
+			t.Fatal(err)
+		}
+		var mu sync.Mutex
+		exits, recvd, overlap := 0, 0, 0
+		second := false
+		verifHook = func(p string) {
+			switch p {
+			case "w.exit":
+				mu.Lock()
+				exits++
+				mu.Unlock()
+			case "w.recv":
+				mu.Lock()
+				recvd++
+				if second && exits == 0 {
+					overlap++ // frames written while both writers were alive
+				}
+				mu.Unlock()
+				time.Sleep(time.Duration(sc.StallMs) * time.Millisecond)
+			}
+		}
+		verifRotateEvery = 0
+		panicked := false
+		herr := ""
+		served := make(chan struct{}, 2)
+		go func() { // main()'s accept loop
+			for k := 0; k < 2; k++ {
+				c, err := l.Accept()
+				if err != nil {
+					return
+				}
+				func() {
+					defer func() {
+						if p := recover(); p != nil {
+							panicked = true
+							herr = fmt.Sprint(p)
+						}
+					}()
+					handleConn(c, conf, false)
+				}()
+				served <- struct{}{}
+			}
+		}()
+		hdr := fmt.Sprintf("Brand: flir\nCameraSerial: 1\nFPS: 9\nFirmware: 1.2.3\nFrameSize: %d\nModel: lepton3\nResX: 16\nResY: 12\n\n", sc.FrameSize)
+		t0 := time.Now()
+		sendConn := func(from, to int) {
+			conn, err := net.Dial("unix", sock)
+			if err != nil {
+				t.Fatal(err)
+			}
+			conn.Write([]byte(hdr))
+			for k := from; k <= to; k++ {
+				conn.Write(twFrame(k, sc.FrameSize))
+			}
+			conn.Close()
+		}
+		sendConn(1, sc.N1)
+		select {
+		case <-served:
+		case <-time.After(20 * time.Second):
+			herr = "first handleConn did not return"
+		}
+		if d := time.Duration(sc.GapMs)*time.Millisecond - time.Since(t0); d > 0 {
+			time.Sleep(d)
+		}
+		mu.Lock()
+		second = true
+		mu.Unlock()
+		sendConn(sc.N1+1, sc.N1+sc.N2)
+		select {
+		case <-served:
+		case <-time.After(20 * time.Second):
+			herr = "second handleConn did not return"
+		}
+		exited := false
+		for i := 0; i < 6000; i++ {
+			mu.Lock()
+			exited = exits >= 2
+			mu.Unlock()
+			if exited {
+				break
+			}
+			time.Sleep(5 * time.Millisecond)
+		}
+		l.Close()
+		names, _ := filepath.Glob(filepath.Join(dir, "*.cptr"))
+		sort.Strings(names)
+		files := []twFile{}
+		want := map[string]string{"model": "lepton3", "brand": "flir", "device": "verif-dev", "deviceid": "5", "resx": "16", "resy": "12", "fps": "9"}
+		for _, n := range names {
+			files = append(files, twParse(n, sc.FrameSize, want))
+		}
+		enc.Encode(map[string]interface{}{"ev": "twrun", "script": si, "mode": "reconnect", "framesize": sc.FrameSize,
+			"nframes": sc.N1 + sc.N2, "complete": sc.N1 + sc.N2, "files": files, "exited": exited, "panicked": panicked,
+			"races": 0, "infeasible": "", "herr": herr, "backlog": overlap})
+		verifHook = nil
+		if !exited {
+			os.Exit(3)
+		}
+	}
+}
